@@ -98,7 +98,7 @@ def ops : List (String × Handler) := [
     | [len, t] => match len.toNat?, t.toNat? with
       | some dl, some t =>
         let L := dl + 8
-        if (2 ^ 64 - 2) / L + 1 < t then "panic"
+        if (2 ^ 64 - 1) / L < t then "panic"
         else s!"{sufficientTrailingZeros ((L * t) % 2 ^ 64)} {targetHash (L * t)}"
       | _, _ => badOp
     | _ => badOp),
